@@ -142,7 +142,8 @@ class Capture:
             return carry
         jax.lax.while_loop = fake
         try:
-            out = jinns.solve(verbose=False, **kw)
+            kw.setdefault("verbose", False)
+            out = jinns.solve(**kw)
         finally:
             jax.lax.while_loop = real
         return out
